@@ -202,6 +202,9 @@ def analyse(scn, out):
         if auction != auction_expected:
             cx.hit('C05.auction_rule', dict(flag=auction, expected=auction_expected, matching=cx.sim['matching_type']),
                    dict(order=o0, call_number=ncall, dt=snap['cal'], phase=snap.get('phase')))
+        if snap.get('phase') == 'OPEN_AUCTION' and not auction:
+            # during the auction only the auction bar exists: matching against the day's bar would use its close / volume (look-ahead)
+            cx.hit('C05.bar_match_in_auction', dict(matching=cx.sim['matching_type']), dict(order=o0, call_number=ncall, dt=snap['cal']))
         ref = ref_price(cx, oid, bar, daybar, auction_expected)
         valid = ref is not None and not (isinstance(ref, float) and math.isnan(ref)) and ref > 0
         lu = pb['limit_up'] if pb else None
